@@ -113,6 +113,10 @@ func c12Forms(r *Rand, t table) map[string]*Expr {
 		// subquery's post-processors, which the enclosing query must adopt
 		"subquery-async": {K: "sub", Q: &Stmt{From: &From{K: "dual"}, Items: []Item{{E: &Expr{K: "call", Qual: "ASYNC", Name: "slowf", Items: []*Expr{Col("n1")}}, Alias: "e"}}}},
 		"async-slow":     {K: "call", Qual: "ASYNC", Name: "slowf", Items: []*Expr{Col("n2")}},
+		// the backward reference selected as a VALUE: the enclosing scope as plain data (no lazy CTE entry, no cycle)
+		"backref-value": {K: "sub", Q: &Stmt{From: &From{K: "dual"}, Items: []Item{{E: Col("<-"), Alias: "p"}}}},
+		// a value tuple as a value: its members are plain values
+		"tuple": {K: "tuple", Items: []*Expr{Num(1), Str("a"), Bin("+", Col("n1"), Num(1)), Col("s1")}},
 	}
 }
 
@@ -183,6 +187,20 @@ func genC12(r *Rand, tier string) []Case {
 				// ... also over the inner dimensions of a multi-dimensional FROM
 				nq := &Stmt{From: &From{K: "table", Path: []string{"nn"}}, Items: []Item{{E: Col("id")}, {E: f, Alias: "v"}}}
 				add(nq, name, "select-item-nested-from", 2)
+				// ... and as the column of a derived table that is an operand of a join
+				if name != "subquery-async" {
+					dq := base()
+					dq.Items = []Item{{E: Col("id")}, {E: f, Alias: "v"}}
+					for _, side := range []string{"left", "right"} {
+						d := &From{K: "derived", Q: dq, Alias: "x"}
+						u := &From{K: "table", Path: []string{"u"}, Alias: "y"}
+						jf := &From{K: "join", JT: "inner", Strat: "auto", L: d, R: u, On: Cmp("=", Col("x", "id"), Col("y", "id"))}
+						if side == "right" {
+							jf.L, jf.R = u, d
+						}
+						add(&Stmt{From: jf, Items: []Item{{Star: true}}}, name, "derived-join-operand-"+side, 2)
+					}
+				}
 				continue // the property speaks of ASYNC calls used directly as select-list items
 			}
 			// 2. select item together with *
